@@ -1,5 +1,5 @@
 (* C06 — Insertion evaluation agrees with brute-force simulation. *)
-From VRP Require Import Base.Tac Model.Core Spec.Feasible Proofs.CoreTimeP Proofs.CoreCapP Proofs.CoreEvalP.
+From VRP Require Import Base.Tac Model.Core Spec.Feasible Model.Eval Proofs.CoreTimeP Proofs.CoreCapP Proofs.CoreEvalP Proofs.CoreMultiP.
 
 (* the cached latest-arrival value is exact: a feasible tail is feasible for another way of reaching it
    iff the arrival at its head is not later than `latest_of` *)
@@ -32,3 +32,49 @@ Theorem C06_eval_complete_inner : forall dur v t idx target,
   feasible dur v (insert_after t idx target) = true ->
   eval_activity dur v t idx target = None.
 Proof. exact eval_activity_complete_inner. Qed.
+
+(* multi-task (pickup-and-delivery) jobs: the evaluator's answer is a list of (activity, index) steps; every list of steps
+   that passes the modelled per-step evaluation on the shadow tour gives a tour the simulation finds feasible.
+   (The greedy search that produces the steps is not modelled: the real result is checked as a certificate on every run.) *)
+Theorem C06_multi_certificate_sound : forall w steps t t',
+  t <> [] ->
+  sched_ok (wdur w) t ->
+  (forall d, d_change (a_dem (hd d t)) = 0) ->
+  Forall (fun s => simple_demand (a_dem (snd s))) steps ->
+  feasible (wdur w) (w_veh w) t = true ->
+  cert_steps w t steps = (true, t') ->
+  feasible (wdur w) (w_veh w) t' = true.
+Proof. exact cert_steps_sound. Qed.
+
+(* ---- the full completeness statement of the exhaustive scan is FALSE of the faithful model: three witnesses ---- *)
+Definition w3 (closed : bool) (shift_end : Z) : world :=
+  mkWorld 3 [0;10;10; 10;0;10; 10;10;0] [0;10;10; 10;0;10; 10;10;0] (mkVeh shift_end 10 0 1 1 0 0) 0
+          (if closed then Some 0 else None) 0.
+Definition scan_fails_but_feasible (w : world) (j : single) : Prop :=
+  let t := build_tour w [] in
+  feasible (wdur w) (w_veh w) t = true /\
+  (exists alt, In alt (alternatives w t j) /\ nth 4 alt 0 = 1) /\
+  exists code st, eval_single_job (wdur w) (wdist w) (w_veh w) (w_shift_start w) (closed w) t j PAny = EFailure code st.
+
+(* F1: an alternative whose window starts after the shift end stops the scan before a feasible alternative is tried *)
+Theorem C06_scan_complete_refuted_after_shift_end :
+  scan_fails_but_feasible (w3 true 100) (mkSingle 90 [mkPlace (Some 1) 0 [(200, 300); (0, 50)]] (mkDemand 0 0 1 0)).
+Proof. unfold scan_fails_but_feasible. vm_compute. split; [reflexivity|]. split; [|eauto]. eexists. split; [right; left; reflexivity|reflexivity]. Qed.
+
+(* F2: last leg of an open tour, positive service time: arrival 10 <= window end 12 but the test wants 10 <= 12 - 5 *)
+Theorem C06_scan_complete_refuted_open_end_service :
+  scan_fails_but_feasible (w3 false INF) (mkSingle 90 [mkPlace (Some 1) 5 [(0, 12)]] (mkDemand 0 0 1 0)).
+Proof. unfold scan_fails_but_feasible. vm_compute. split; [reflexivity|]. split; [|eauto]. eexists. split; [left; reflexivity|reflexivity]. Qed.
+
+(* F3: last leg of an open tour: an unreachable first place stops the scan before the feasible second place *)
+Theorem C06_scan_complete_refuted_open_end_alternative :
+  scan_fails_but_feasible (w3 false INF) (mkSingle 90 [mkPlace (Some 1) 0 [(0, 5)]; mkPlace (Some 2) 0 [(0, 50)]] (mkDemand 0 0 1 0)).
+Proof. unfold scan_fails_but_feasible. vm_compute. split; [reflexivity|]. split; [|eauto]. eexists. split; [right; left; reflexivity|reflexivity]. Qed.
+
+(* non-vacuity: a feasible, consistently scheduled tour with an accepted inner position exists *)
+Theorem C06_nonvacuous :
+  let w := w3 true 100 in
+  let t := build_tour w [(1, 1, 0, 0, 50, mkDemand 0 0 1 0)] in
+  let x := mkAct 2 2 0 0 60 (mkDemand 0 0 1 0) 0 0 in
+  feasible (wdur w) (w_veh w) t = true /\ eval_activity (wdur w) (w_veh w) t 1 x = None /\ (2 < length t)%nat.
+Proof. vm_compute. repeat split; reflexivity || lia. Qed.
